@@ -31,7 +31,11 @@
      12 a rejecting call returned closed descriptors or changed the open list
      13 a descriptor without PTS was not rejected with error 29
      14 the same descriptor (with PTS) processed twice in a row was not rejected the second time as a
-        duplicate (31; or 37 again when the first attempt already failed with 37)
+        duplicate (31; or 37 again when the first attempt already failed with 37).  "In a row" = two
+        ProcessDescriptor calls with no state-changing call between them: an Open() in between does not
+        break the row (it only observes), a Close() does (it is a call that edits the open list, so the
+        text's "twice in a row" no longer applies; the library would in fact still reject, see
+        C10_dup_twice_in_row_partial, whose conclusion only depends on the ring, which Close leaves alone)
      15 malformed Close result (error and closed list inconsistent, or error other than not-found)
      16 an Open() call returned something else than the Open() after the previous call
      17 malformed input (index outside the pool, observation list shorter than the script) *)
@@ -105,7 +109,7 @@ Definition check_call (pool : list desc) (g : ghost) (c : tcall) (o : tobs) : op
     match c with
     | TOpen =>
       (first_some [ req (is_nil_b (t_closed o) && (t_err o =? 0)) 16; req (list_eqb vis1 (g_vis g)) 16 ],
-       mkGhost (g_processed g) (g_gone g) (g_order g) (g_vis g) (g_hidden g) None)
+       mkGhost (g_processed g) (g_gone g) (g_order g) (g_vis g) (g_hidden g) (g_prev g))
     | TProcess i =>
       match nth_error pool i with
       | None => (Some 17, g)
